@@ -259,6 +259,9 @@ func getLSAsv2(num uint32, data []byte) ([]LSA, error) {
 	var i uint32 = 0
 	var offset uint32 = 0
 	for ; i < num; i++ {
+		if len(data)-int(offset) < 20 {
+			return nil, fmt.Errorf("Link State header too short, %v required", 20)
+		}
 		lstype := uint16(data[offset+3])
 		lsalength := binary.BigEndian.Uint16(data[offset+18 : offset+20])
 		content, err := extractLSAInformation(lstype, lsalength, data[offset:])
@@ -321,6 +324,9 @@ func extractLSAInformation(lstype, lsalength uint16, data []byte) (interface{}, 
 	case NSSALSAtypeV2:
 		fallthrough
 	case ASExternalLSAtypeV2:
+		if len(data) < 36 {
+			return nil, errors.New("ASExternalLSAtypeV2 too small")
+		}
 		content = ASExternalLSAV2{
 			NetworkMask:       binary.BigEndian.Uint32(data[20:24]),
 			ExternalBit:       data[24] & 0x80,
@@ -329,9 +335,15 @@ func extractLSAInformation(lstype, lsalength uint16, data []byte) (interface{}, 
 			ExternalRouteTag:  binary.BigEndian.Uint32(data[32:36]),
 		}
 	case NetworkLSAtypeV2:
+		if len(data) < 24 {
+			return nil, errors.New("NetworkLSAtypeV2 too small")
+		}
 		var routers []uint32
 		var j uint32
 		for j = 24; j < uint32(lsalength); j += 4 {
+			if len(data) < int(j+4) {
+				return nil, errors.New("NetworkLSAtypeV2 too small")
+			}
 			routers = append(routers, binary.BigEndian.Uint32(data[j:j+4]))
 		}
 		content = NetworkLSAV2{
@@ -339,9 +351,15 @@ func extractLSAInformation(lstype, lsalength uint16, data []byte) (interface{}, 
 			AttachedRouter: routers,
 		}
 	case RouterLSAtype:
+		if len(data) < 24 {
+			return nil, errors.New("RouterLSAtype too small")
+		}
 		var routers []Router
 		var j uint32
 		for j = 24; j < uint32(lsalength); j += 16 {
+			if len(data) < int(j+16) {
+				return nil, errors.New("RouterLSAtype too small")
+			}
 			router := Router{
 				Type:                uint8(data[j]),
 				Metric:              binary.BigEndian.Uint16(data[j+2 : j+4]),
@@ -357,9 +375,15 @@ func extractLSAInformation(lstype, lsalength uint16, data []byte) (interface{}, 
 			Routers: routers,
 		}
 	case NetworkLSAtype:
+		if len(data) < 24 {
+			return nil, errors.New("NetworkLSAtype too small")
+		}
 		var routers []uint32
 		var j uint32
 		for j = 24; j < uint32(lsalength); j += 4 {
+			if len(data) < int(j+4) {
+				return nil, errors.New("NetworkLSAtype too small")
+			}
 			routers = append(routers, binary.BigEndian.Uint32(data[j:j+4]))
 		}
 		content = NetworkLSA{
@@ -367,6 +391,9 @@ func extractLSAInformation(lstype, lsalength uint16, data []byte) (interface{}, 
 			AttachedRouter: routers,
 		}
 	case InterAreaPrefixLSAtype:
+		if lsalength < 28 {
+			return nil, errors.New("InterAreaPrefixLSAtype too small")
+		}
 		content = InterAreaPrefixLSA{
 			Metric:        binary.BigEndian.Uint32(data[20:24]) & 0x00FFFFFF,
 			PrefixLength:  uint8(data[24]),
@@ -374,6 +401,9 @@ func extractLSAInformation(lstype, lsalength uint16, data []byte) (interface{}, 
 			AddressPrefix: data[28:uint32(lsalength)],
 		}
 	case InterAreaRouterLSAtype:
+		if len(data) < 32 {
+			return nil, errors.New("InterAreaRouterLSAtype too small")
+		}
 		content = InterAreaRouterLSA{
 			Options:             binary.BigEndian.Uint32(data[20:24]) & 0x00FFFFFF,
 			Metric:              binary.BigEndian.Uint32(data[24:28]) & 0x00FFFFFF,
@@ -382,10 +412,19 @@ func extractLSAInformation(lstype, lsalength uint16, data []byte) (interface{}, 
 	case ASExternalLSAtype:
 		fallthrough
 	case NSSALSAtype:
+		if len(data) < 28 {
+			return nil, errors.New("ASExternalLSAtype too small")
+		}
 		flags := uint8(data[20])
 		prefixLen := uint8(data[24]) / 8
+		if len(data) < 28+int(prefixLen) {
+			return nil, errors.New("ASExternalLSAtype too small")
+		}
 		var forwardingAddress []byte
 		if (flags & 0x02) == 0x02 {
+			if len(data) < 28+int(prefixLen)+16 {
+				return nil, errors.New("ASExternalLSAtype too small")
+			}
 			forwardingAddress = data[28+uint32(prefixLen) : 28+uint32(prefixLen)+16]
 		}
 		content = ASExternalLSA{
@@ -398,12 +437,21 @@ func extractLSAInformation(lstype, lsalength uint16, data []byte) (interface{}, 
 			ForwardingAddress: forwardingAddress,
 		}
 	case LinkLSAtype:
+		if len(data) < 44 {
+			return nil, errors.New("LinkLSAtype too small")
+		}
 		var prefixes []Prefix
 		var prefixOffset uint32 = 44
 		var j uint32
 		numOfPrefixes := binary.BigEndian.Uint32(data[40:44])
 		for j = 0; j < numOfPrefixes; j++ {
+			if len(data) < int(prefixOffset)+4 {
+				return nil, errors.New("LinkLSAtype too small")
+			}
 			prefixLen := uint8(data[prefixOffset])
+			if len(data) < int(prefixOffset)+4+int(prefixLen)/8 {
+				return nil, errors.New("LinkLSAtype too small")
+			}
 			prefix := Prefix{
 				PrefixLength:  prefixLen,
 				PrefixOptions: uint8(data[prefixOffset+1]),
@@ -420,12 +468,21 @@ func extractLSAInformation(lstype, lsalength uint16, data []byte) (interface{}, 
 			Prefixes:         prefixes,
 		}
 	case IntraAreaPrefixLSAtype:
+		if len(data) < 32 {
+			return nil, errors.New("IntraAreaPrefixLSAtype too small")
+		}
 		var prefixes []Prefix
 		var prefixOffset uint32 = 32
 		var j uint16
 		numOfPrefixes := binary.BigEndian.Uint16(data[20:22])
 		for j = 0; j < numOfPrefixes; j++ {
+			if len(data) < int(prefixOffset)+4 {
+				return nil, errors.New("IntraAreaPrefixLSAtype too small")
+			}
 			prefixLen := uint8(data[prefixOffset])
+			if len(data) < int(prefixOffset)+4+int(prefixLen)/8 {
+				return nil, errors.New("IntraAreaPrefixLSAtype too small")
+			}
 			prefix := Prefix{
 				PrefixLength:  prefixLen,
 				PrefixOptions: uint8(data[prefixOffset+1]),
@@ -455,6 +512,9 @@ func getLSAs(num uint32, data []byte) ([]LSA, error) {
 	var offset uint32 = 0
 	for ; i < num; i++ {
 		var content interface{}
+		if len(data)-int(offset) < 20 {
+			return nil, fmt.Errorf("Link State header too short, %v required", 20)
+		}
 		lstype := binary.BigEndian.Uint16(data[offset+2 : offset+4])
 		lsalength := binary.BigEndian.Uint16(data[offset+18 : offset+20])
 
@@ -495,10 +555,19 @@ func (ospf *OSPFv2) DecodeFromBytes(data []byte, df gopacket.DecodeFeedback) err
 	ospf.AuType = binary.BigEndian.Uint16(data[14:16])
 	ospf.Authentication = binary.BigEndian.Uint64(data[16:24])
 
+	if int(ospf.PacketLength) > len(data) {
+		df.SetTruncated()
+		return fmt.Errorf("OSPF Version 2 packet length %v exceeds the %v bytes of data", ospf.PacketLength, len(data))
+	}
+
 	switch ospf.Type {
 	case OSPFHello:
+		if len(data) < 44 {
+			df.SetTruncated()
+			return fmt.Errorf("Packet too small for OSPF Version 2 Hello")
+		}
 		var neighbors []uint32
-		for i := 44; uint16(i+4) <= ospf.PacketLength; i += 4 {
+		for i := 44; i+4 <= int(ospf.PacketLength); i += 4 {
 			neighbors = append(neighbors, binary.BigEndian.Uint32(data[i:i+4]))
 		}
 		ospf.Content = HelloPkgV2{
@@ -514,8 +583,12 @@ func (ospf *OSPFv2) DecodeFromBytes(data []byte, df gopacket.DecodeFeedback) err
 			},
 		}
 	case OSPFDatabaseDescription:
+		if len(data) < 32 {
+			df.SetTruncated()
+			return fmt.Errorf("Packet too small for OSPF Version 2 Database Description")
+		}
 		var lsas []LSAheader
-		for i := 32; uint16(i+20) <= ospf.PacketLength; i += 20 {
+		for i := 32; i+20 <= int(ospf.PacketLength); i += 20 {
 			lsa := LSAheader{
 				LSAge:       binary.BigEndian.Uint16(data[i : i+2]),
 				LSOptions:   data[i+2],
@@ -537,7 +610,7 @@ func (ospf *OSPFv2) DecodeFromBytes(data []byte, df gopacket.DecodeFeedback) err
 		}
 	case OSPFLinkStateRequest:
 		var lsrs []LSReq
-		for i := 24; uint16(i+12) <= ospf.PacketLength; i += 12 {
+		for i := 24; i+12 <= int(ospf.PacketLength); i += 12 {
 			lsr := LSReq{
 				LSType:    binary.BigEndian.Uint16(data[i+2 : i+4]),
 				LSID:      binary.BigEndian.Uint32(data[i+4 : i+8]),
@@ -547,6 +620,10 @@ func (ospf *OSPFv2) DecodeFromBytes(data []byte, df gopacket.DecodeFeedback) err
 		}
 		ospf.Content = lsrs
 	case OSPFLinkStateUpdate:
+		if len(data) < 28 {
+			df.SetTruncated()
+			return fmt.Errorf("Packet too small for OSPF Version 2 Link State Update")
+		}
 		num := binary.BigEndian.Uint32(data[24:28])
 
 		lsas, err := getLSAsv2(num, data[28:])
@@ -559,7 +636,7 @@ func (ospf *OSPFv2) DecodeFromBytes(data []byte, df gopacket.DecodeFeedback) err
 		}
 	case OSPFLinkStateAcknowledgment:
 		var lsas []LSAheader
-		for i := 24; uint16(i+20) <= ospf.PacketLength; i += 20 {
+		for i := 24; i+20 <= int(ospf.PacketLength); i += 20 {
 			lsa := LSAheader{
 				LSAge:       binary.BigEndian.Uint16(data[i : i+2]),
 				LSOptions:   data[i+2],
@@ -593,10 +670,19 @@ func (ospf *OSPFv3) DecodeFromBytes(data []byte, df gopacket.DecodeFeedback) err
 	ospf.Instance = uint8(data[14])
 	ospf.Reserved = uint8(data[15])
 
+	if int(ospf.PacketLength) > len(data) {
+		df.SetTruncated()
+		return fmt.Errorf("OSPF Version 3 packet length %v exceeds the %v bytes of data", ospf.PacketLength, len(data))
+	}
+
 	switch ospf.Type {
 	case OSPFHello:
+		if len(data) < 36 {
+			df.SetTruncated()
+			return fmt.Errorf("Packet too small for OSPF Version 3 Hello")
+		}
 		var neighbors []uint32
-		for i := 36; uint16(i+4) <= ospf.PacketLength; i += 4 {
+		for i := 36; i+4 <= int(ospf.PacketLength); i += 4 {
 			neighbors = append(neighbors, binary.BigEndian.Uint32(data[i:i+4]))
 		}
 		ospf.Content = HelloPkg{
@@ -610,8 +696,12 @@ func (ospf *OSPFv3) DecodeFromBytes(data []byte, df gopacket.DecodeFeedback) err
 			NeighborID:               neighbors,
 		}
 	case OSPFDatabaseDescription:
+		if len(data) < 28 {
+			df.SetTruncated()
+			return fmt.Errorf("Packet too small for OSPF Version 3 Database Description")
+		}
 		var lsas []LSAheader
-		for i := 28; uint16(i+20) <= ospf.PacketLength; i += 20 {
+		for i := 28; i+20 <= int(ospf.PacketLength); i += 20 {
 			lsa := LSAheader{
 				LSAge:       binary.BigEndian.Uint16(data[i : i+2]),
 				LSType:      binary.BigEndian.Uint16(data[i+2 : i+4]),
@@ -632,7 +722,7 @@ func (ospf *OSPFv3) DecodeFromBytes(data []byte, df gopacket.DecodeFeedback) err
 		}
 	case OSPFLinkStateRequest:
 		var lsrs []LSReq
-		for i := 16; uint16(i+12) <= ospf.PacketLength; i += 12 {
+		for i := 16; i+12 <= int(ospf.PacketLength); i += 12 {
 			lsr := LSReq{
 				LSType:    binary.BigEndian.Uint16(data[i+2 : i+4]),
 				LSID:      binary.BigEndian.Uint32(data[i+4 : i+8]),
@@ -642,6 +732,10 @@ func (ospf *OSPFv3) DecodeFromBytes(data []byte, df gopacket.DecodeFeedback) err
 		}
 		ospf.Content = lsrs
 	case OSPFLinkStateUpdate:
+		if len(data) < 20 {
+			df.SetTruncated()
+			return fmt.Errorf("Packet too small for OSPF Version 3 Link State Update")
+		}
 		num := binary.BigEndian.Uint32(data[16:20])
 		lsas, err := getLSAs(num, data[20:])
 		if err != nil {
@@ -654,7 +748,7 @@ func (ospf *OSPFv3) DecodeFromBytes(data []byte, df gopacket.DecodeFeedback) err
 
 	case OSPFLinkStateAcknowledgment:
 		var lsas []LSAheader
-		for i := 16; uint16(i+20) <= ospf.PacketLength; i += 20 {
+		for i := 16; i+20 <= int(ospf.PacketLength); i += 20 {
 			lsa := LSAheader{
 				LSAge:       binary.BigEndian.Uint16(data[i : i+2]),
 				LSType:      binary.BigEndian.Uint16(data[i+2 : i+4]),
